@@ -232,13 +232,18 @@ def r_marker(ctx):
     """the marker that the reporters use to fold unit workers into their cumulative worker is the one the writer puts in
     the unit worker names"""
     proj = ctx.project
-    cw = proj.cls("CumulativeWorker")
+    # the writer's marker: the literal between the cumulative worker's own name and the unit index in the names of the
+    # unit workers CumulativeWorker.__init__ creates (taken from the extracted IR, whatever way the string is spelled)
     writer = None
-    for n in ast.walk(cw.node):
-        if isinstance(n, ast.JoinedStr):
-            consts = [v.value for v in n.values if isinstance(v, ast.Constant) and isinstance(v.value, str) and v.value.strip("_")]
-            if len(n.values) == 3 and consts:
-                writer = consts[0]
+    for run in runs_of(ctx, Entry("init", cls="CumulativeWorker", opaque=("_distribute_p_over_n",))):
+        for ev in run.events_of("new"):
+            if ev.data["cls"] != "Worker":
+                continue
+            nm = dict(ev.data["kwargs"]).get("name")
+            if isinstance(nm, tuple) and nm and nm[0] == "fstr":
+                lits = [q[1] for q in nm[1] if is_const(q) and isinstance(q[1], str) and q[1].strip("_")]
+                if lits and nm[1][0] == A(S("self"), "name"):
+                    writer = lits[0]
     if writer is None:
         raise P.AnalysisError("R-MARKER: the unit worker name template of CumulativeWorker was not found")
     readers = []
